@@ -663,7 +663,7 @@ Section WriterFacts.
   Definition LogShape (d : disk) (R : list (N * list entry)) (ew : list entry) (t : bytes) : Prop :=
     d_rot d = rot_bytes R /\
     StronglySorted (fun a b => fst a < fst b) R /\
-    d_wal d = Some (fbytes ew ++ t) /\ (t = [] \/ torn t) /\
+    (d_wal d = Some (fbytes ew ++ t) \/ (d_wal d = None /\ ew = [] /\ t = [])) /\ (t = [] \/ torn t) /\
     Forall genuine (all_entries R ew).
 
   Lemma rot_bytes_sorted : forall R, StronglySorted (fun a b => fst a < fst b) R -> sort_asc (rot_bytes R) = rot_bytes R.
@@ -673,23 +673,225 @@ Section WriterFacts.
     eapply sorted_weaken; [|exact H]. cbn. intros a b Hab. apply N.leb_le. lia.
   Qed.
 
-  Lemma wal_files_shape : forall d R ew t, LogShape d R ew t ->
-    wal_files d = map fbytes (map snd R) ++ [fbytes ew ++ t].
-  Proof.
-    intros d R ew t [Hr [Hs [Hw _]]]. unfold wal_files. rewrite Hr, Hw, rot_bytes_sorted by assumption.
-    unfold rot_bytes. rewrite !map_map. reflexivity.
-  Qed.
-
   Lemma replay_logs_shape : forall d R ew t st c s, LogShape d R ew t ->
     sc (fold_left replay_file (wal_files d) (st, c, s)) =
     (apply_changes st (effs (all_entries R ew)), max_txid c (all_entries R ew)).
   Proof.
-    intros d R ew t st c s Hsh. rewrite (wal_files_shape d R ew t Hsh).
-    destruct Hsh as [_ [_ [_ [Ht Hg]]]]. unfold all_entries in *. apply Forall_app in Hg as [Hg1 Hg2].
-    rewrite fold_left_app. cbn [fold_left].
+    intros d R ew t st c s [Hr [Hs [Hw [Ht Hg]]]]. unfold wal_files.
+    rewrite Hr, rot_bytes_sorted by assumption. unfold rot_bytes. rewrite map_map. cbn [snd].
+    replace (map (fun x : N * list entry => fbytes (snd x)) R) with (map fbytes (map snd R)) by (rewrite map_map; reflexivity).
+    unfold all_entries in *. apply Forall_app in Hg as [Hg1 Hg2].
+    rewrite fold_left_app.
     pose proof (fold_files_genuine (map snd R) st c s Hg1) as H.
     destruct (fold_left replay_file (map fbytes (map snd R)) (st, c, s)) as [[st1 c1] s1]. cbn in H. inv H.
-    rewrite replay_file_genuine by assumption.
-    rewrite effs_app, max_txid_app, apply_changes_app. reflexivity.
+    rewrite effs_app, max_txid_app, apply_changes_app.
+    destruct Hw as [Hw | [Hw [-> ->]]]; rewrite Hw; cbn [fold_left].
+    - rewrite replay_file_genuine by assumption. reflexivity.
+    - reflexivity.
   Qed.
-End WriterFacts.
+
+  (* ---- snapshots *)
+  Definition SnapShape (d : disk) (S0 : state) (cs : N) : Prop :=
+    StronglySorted (fun a b => fst b < fst a) (d_snap d) /\
+    match d_snap d with
+    | [] => S0 = [] /\ cs = 0
+    | (ts, b) :: _ => exists h, snap_valid b = Some (h, S0) /\ h_txid h = cs
+    end.
+
+  Lemma snaps_sorted : forall (l : list (N * bytes)), StronglySorted (fun a b => fst b < fst a) l -> sort_desc l = l.
+  Proof.
+    intros l H. unfold sort_desc. apply isort_by_sorted.
+    eapply sorted_weaken; [|exact H]. cbn. intros a b Hab. apply N.leb_le. lia.
+  Qed.
+
+  Lemma load_shape : forall d S0 cs s, SnapShape d S0 cs -> sc (load_snaps (sort_desc (d_snap d)) s) = (S0, cs).
+  Proof.
+    intros d S0 cs s [Hs Hh]. rewrite snaps_sorted by assumption.
+    destruct (d_snap d) as [|[ts b] tl]; [destruct Hh as [-> ->]; reflexivity|].
+    destruct Hh as [h [Hv <-]]. cbn [Wal.load_snaps]. rewrite Hv. reflexivity.
+  Qed.
+
+  Lemma recover_shape : forall d R ew t S0 cs, LogShape d R ew t -> SnapShape d S0 cs ->
+    sc (recover d) = (apply_changes S0 (effs (all_entries R ew)), max_txid cs (all_entries R ew)).
+  Proof.
+    intros d R ew t S0 cs Hl Hs. unfold Wal.recover.
+    pose proof (load_shape d S0 cs stats0 Hs) as H.
+    destruct (load_snaps (sort_desc (d_snap d)) stats0) as [[st c] s]. cbn in H. inv H.
+    apply (replay_logs_shape d R ew t). exact Hl.
+  Qed.
+
+  (* ---- the snapshot covers a prefix of the log *)
+  Definition Cover (S0 : state) (cs : N) (E : list entry) (M : state) : Prop :=
+    exists X L0 E1 E2, E = E1 ++ E2 /\ S0 ≈ apply_changes X (L0 ++ effs E1) /\
+      Forall (fun e => e_txid e <= cs) E1 /\ Forall (fun e => cs < e_txid e) E2 /\
+      M ≈ apply_changes X (L0 ++ effs E).
+
+  Lemma cover_recover : forall S0 cs E M, Cover S0 cs E M -> apply_changes S0 (effs E) ≈ M.
+  Proof.
+    intros S0 cs E M [X [L0 [E1 [E2 [-> [HS [_ [_ HM]]]]]]]].
+    rewrite effs_app, apply_changes_app.
+    apply steq_trans with (apply_changes (apply_changes X (L0 ++ effs E1)) (effs E2)).
+    - apply apply_changes_steq.
+      apply steq_trans with (apply_changes (apply_changes X (L0 ++ effs E1)) (effs E1)).
+      + apply apply_changes_steq. exact HS.
+      + apply replay_suffix_idem.
+    - apply steq_sym. rewrite <- apply_changes_app, <- app_assoc, <- effs_app. exact HM.
+  Qed.
+
+  (* the disk invariant: M = committed state, C = upper bound of every id on disk *)
+  Definition DInvG (d : disk) (M : state) (C : N) (t : bytes) : Prop :=
+    exists R ew S0 cs,
+      LogShape d R ew t /\ SnapShape d S0 cs /\ Cover S0 cs (all_entries R ew) M /\
+      StronglySorted (fun a b => e_txid a < e_txid b) (all_entries R ew) /\
+      Forall (fun e => e_txid e <= C) (all_entries R ew) /\ cs <= C.
+  Definition DInv (d : disk) (M : state) (C : N) : Prop := exists t, DInvG d M C t.
+
+  Lemma max_txid_bound : forall es c C, c <= C -> Forall (fun e => e_txid e <= C) es -> max_txid c es <= C.
+  Proof.
+    induction es as [|e tl IH]; intros c C Hc Hf; [exact Hc|]. inv Hf. cbn. apply IH; [lia | assumption].
+  Qed.
+  Lemma max_txid_ge : forall es c, c <= max_txid c es.
+  Proof. induction es as [|e tl IH]; intro c; [cbn; lia|]. cbn. etransitivity; [|apply IH]. lia. Qed.
+  Lemma max_txid_in : forall es c e, In e es -> e_txid e <= max_txid c es.
+  Proof.
+    induction es as [|x tl IH]; intros c e Hi; [contradiction|]. cbn. destruct Hi as [-> | Hi].
+    - etransitivity; [|apply max_txid_ge]. lia.
+    - apply IH. exact Hi.
+  Qed.
+
+  (* what recovery returns on a disk satisfying the invariant *)
+  Lemma recover_DInv : forall d M C, DInv d M C -> r_state (recover d) ≈ M /\ r_ctr (recover d) <= C.
+  Proof.
+    intros d M C [t [R [ew [S0 [cs [Hl [Hs [Hc [_ [Hb Hcs]]]]]]]]]].
+    pose proof (recover_shape d R ew t S0 cs Hl Hs) as H. unfold r_state, r_ctr.
+    destruct (recover d) as [[st c] s]. cbn in H. inv H. cbn. split.
+    - apply cover_recover with cs. exact Hc.
+    - apply max_txid_bound; assumption.
+  Qed.
+
+  (* ---- steps of the writer *)
+  Lemma sorted_snoc : forall {A} (f : A -> N) l x, StronglySorted (fun a b => f a < f b) l ->
+    Forall (fun e => f e < f x) l -> StronglySorted (fun a b => f a < f b) (l ++ [x]).
+  Proof.
+    intros A f l x Hs Hb. induction Hs as [|y tl Hs IH Hf]; cbn; [repeat constructor|].
+    inv Hb. constructor; [apply IH; assumption|].
+    apply Forall_app. split; [assumption|]. constructor; [assumption|constructor].
+  Qed.
+
+  Lemma all_entries_snoc : forall R ew e, all_entries R (ew ++ [e]) = all_entries R ew ++ [e].
+  Proof. intros. unfold all_entries. rewrite app_assoc. reflexivity. Qed.
+  Lemma fbytes_snoc : forall ew e, fbytes (ew ++ [e]) = fbytes ew ++ frame (ser e).
+  Proof. intros. unfold fbytes. rewrite map_app, frames_app. cbn. unfold frames. cbn. rewrite app_nil_r. reflexivity. Qed.
+
+  (* a whole record appended to a clean log: one more operation is committed *)
+  Lemma step_append_full : forall d M C e y, DInvG d M C [] -> d_wal d = Some y ->
+    genuine e -> C < e_txid e ->
+    DInvG (exec1 d (AAppend FWal (frame (ser e)))) (apply_changes M (eff e)) (e_txid e) [].
+  Proof.
+    intros d M C e y [R [ew [S0 [cs [Hl [Hs [Hc [Hsort [Hb Hcs]]]]]]]]] Hy Hg Hlt.
+    destruct Hl as [Hr [HRs [Hw [_ Hgs]]]].
+    destruct Hw as [Hw | [Hw _]]; [|congruence]. rewrite app_nil_r in Hw.
+    exists R, (ew ++ [e]), S0, cs. cbn [exec1 read write]. rewrite Hw. repeat split.
+    - exact Hr.
+    - exact HRs.
+    - left. cbn. rewrite fbytes_snoc, app_nil_r. reflexivity.
+    - left. reflexivity.
+    - rewrite all_entries_snoc. apply Forall_app. split; [exact Hgs | constructor; [exact Hg | constructor]].
+    - exact (proj1 Hs).
+    - exact (proj2 Hs).
+    - destruct Hc as [X [L0 [E1 [E2 [HE [HS [H1 [H2 HM]]]]]]]].
+      exists X, L0, E1, (E2 ++ [e]). rewrite all_entries_snoc, HE. repeat split.
+      + rewrite app_assoc. reflexivity.
+      + exact HS.
+      + exact H1.
+      + apply Forall_app. split; [exact H2 | constructor; [lia | constructor]].
+      + rewrite <- HE. rewrite effs_app. unfold effs at 2. cbn [flat_map]. rewrite app_nil_r.
+        rewrite app_assoc, apply_changes_app. apply apply_changes_steq. exact HM.
+    - rewrite all_entries_snoc. apply sorted_snoc; [assumption|].
+      eapply Forall_impl; [|exact Hb]. cbn. intros; lia.
+    - rewrite all_entries_snoc. apply Forall_app. split.
+      + eapply Forall_impl; [|exact Hb]. cbn. intros; lia.
+      + constructor; [lia | constructor].
+    - lia.
+  Qed.
+
+  (* the process dies inside the write: the bytes form a torn tail, nothing is committed *)
+  Lemma step_append_cut : forall d M C e y n, DInvG d M C [] -> d_wal d = Some y ->
+    (0 < n < length (frame (ser e)))%nat ->
+    DInvG (exec1 d (AAppend FWal (firstn n (frame (ser e))))) M C (firstn n (frame (ser e))).
+  Proof.
+    intros d M C e y n [R [ew [S0 [cs [Hl [Hs [Hc [Hsort [Hb Hcs]]]]]]]]] Hy Hn.
+    destruct Hl as [Hr [HRs [Hw [_ Hgs]]]].
+    destruct Hw as [Hw | [Hw _]]; [|congruence]. rewrite app_nil_r in Hw.
+    exists R, ew, S0, cs. cbn [exec1 read write]. rewrite Hw. repeat split; try assumption.
+    - left. reflexivity.
+    - right. apply strict_prefix_torn; [apply Hser_small | exact Hn].
+    - exact (proj1 Hs).
+    - exact (proj2 Hs).
+  Qed.
+
+  (* ---- rotation *)
+  Lemma fold_max_ge : forall {A} (l : list (N * A)) c, c <= fold_left (fun m p => N.max m (fst p)) l c.
+  Proof. induction l as [|x tl IH]; intro c; [cbn; lia|]. cbn. etransitivity; [|apply IH]. lia. Qed.
+  Lemma fold_max_in : forall {A} (l : list (N * A)) c p, In p l -> fst p <= fold_left (fun m p => N.max m (fst p)) l c.
+  Proof.
+    induction l as [|x tl IH]; intros c p Hi; [contradiction|]. cbn. destruct Hi as [-> | Hi].
+    - etransitivity; [|apply fold_max_ge]. lia.
+    - apply IH. exact Hi.
+  Qed.
+  Lemma next_seq_gt : forall d p, In p (d_rot d) -> fst p < next_seq d.
+  Proof. intros d p Hi. unfold next_seq. pose proof (fold_max_in (d_rot d) 0 p Hi). lia. Qed.
+
+  Lemma aupdate_none : forall {A} n (x : A) l, (forall p, In p l -> fst p <> n) -> aupdate n x l = None.
+  Proof.
+    induction l as [|[m y] tl IH]; intro H; [reflexivity|]. cbn.
+    replace (m =? n) with false by (symmetry; apply N.eqb_neq; apply (H (m, y)); left; reflexivity).
+    rewrite IH; [reflexivity|]. intros p Hp. apply H. right. exact Hp.
+  Qed.
+
+  Lemma step_rotate_rename : forall d M C y, DInvG d M C [] -> d_wal d = Some y ->
+    DInvG (exec1 d (ARename FWal (FRot (next_seq d)))) M C [] /\
+    d_wal (exec1 d (ARename FWal (FRot (next_seq d)))) = None.
+  Proof.
+    intros d M C y [R [ew [S0 [cs [Hl [Hs [Hc [Hsort [Hb Hcs]]]]]]]]] Hy.
+    destruct Hl as [Hr [HRs [Hw [_ Hgs]]]].
+    destruct Hw as [Hw | [Hw _]]; [|congruence]. rewrite app_nil_r in Hw.
+    assert (Hnone : aupdate (next_seq d) (fbytes ew) (d_rot d) = None).
+    { apply aupdate_none. intros p Hp. pose proof (next_seq_gt d p Hp). lia. }
+    split; [|cbn [exec1 read]; rewrite Hw; reflexivity].
+    assert (Hall : all_entries (R ++ [(next_seq d, ew)]) [] = all_entries R ew).
+    { unfold all_entries. rewrite map_app, concat_app. cbn. rewrite !app_nil_r. reflexivity. }
+    exists (R ++ [(next_seq d, ew)]), [], S0, cs. unfold LogShape, SnapShape.
+    cbn [exec1 read]. rewrite Hw. cbn [unlink write d_wal d_rot d_snap d_tmp]. unfold aput_back. rewrite Hnone.
+    rewrite Hall. repeat split; try assumption.
+    - rewrite Hr. unfold rot_bytes. rewrite map_app. reflexivity.
+    - apply sorted_snoc; [exact HRs|]. apply Forall_forall. intros p Hp. cbn.
+      assert (In (fst p, fbytes (snd p)) (d_rot d)) by (rewrite Hr; unfold rot_bytes; apply in_map_iff; exists p; auto).
+      apply (next_seq_gt d _ H).
+    - right. auto.
+    - left. reflexivity.
+    - exact (proj1 Hs).
+    - exact (proj2 Hs).
+  Qed.
+
+  Lemma step_create_wal : forall d M C, DInvG d M C [] -> d_wal d = None ->
+    DInvG (exec1 d (ACreate FWal)) M C [] /\ d_wal (exec1 d (ACreate FWal)) = Some [].
+  Proof.
+    intros d M C [R [ew [S0 [cs [Hl [Hs [Hc [Hsort [Hb Hcs]]]]]]]]] Hn.
+    destruct Hl as [Hr [HRs [Hw [_ Hgs]]]].
+    destruct Hw as [Hw | [Hw [-> _]]]; [congruence|].
+    cbn [exec1 read]. rewrite Hn. cbn [write d_wal]. split; [|reflexivity].
+    exists R, [], S0, cs. cbn [d_wal d_rot d_snap]. repeat split; try assumption.
+    - left. reflexivity.
+    - left. reflexivity.
+    - exact (proj1 Hs).
+    - exact (proj2 Hs).
+  Qed.
+
+  (* actions that touch only snapshot.<ts>.tmp leave the invariant alone *)
+  Lemma DInvG_same_files : forall d d' M C t, d_wal d' = d_wal d -> d_rot d' = d_rot d -> d_snap d' = d_snap d ->
+    DInvG d M C t -> DInvG d' M C t.
+  Proof.
+    intros d d' M C t Hw Hr Hs [R [ew [S0 [cs [Hl [Hsn H]]]]]].
+    exists R, ew, S0, cs. unfold LogShape, SnapShape in *. rewrite Hw, Hr, Hs. auto.
+  Qed.
